@@ -9,6 +9,11 @@ use std::collections::BTreeSet;
 /// `a b`: names with a space
 pub const NAMES: &[&str] = &["a", "ab", "a.b", "b", "é", "d.x", ".h", "x_w", "..x", "...", "a\\b", "..\\x", "a b"];
 
+/// Pairs (base, extension): the extension's text starts with the base's text, followed by a character that sorts
+/// below '/' ('.', ' ', '-'), above it, or is a plain letter — siblings whose keys interleave with the base's
+/// subtree in ordered maps and whose paths share a textual prefix. (Never a pair (n, n_wo): KF3.)
+pub const FAMILIES: &[(&str, &str)] = &[("a", "ab"), ("a", "a.b"), ("a", "a\\b"), ("a", "a b"), ("a", "a-1"), ("b", "b2"), ("é", "éé"), (".h", ".h.x"), ("d.x", "d.x.y"), ("x_w", "x_w2"), ("..x", "..x.")];
+
 #[derive(Clone, Debug)]
 pub struct Universe {
     pub names: Vec<&'static str>,
@@ -35,6 +40,14 @@ impl Universe {
         if rng.chance(1, 2) && !names.contains(&"ab") && names.contains(&"a") {
             let i = names.iter().position(|x| *x != "a").unwrap();
             names[i] = "ab";
+        }
+        // one universe in three is built around a family pair
+        if rng.chance(1, 3) {
+            let (base, ext) = *rng.pick(FAMILIES);
+            names.retain(|x| *x != base && *x != ext);
+            names.truncate(n.saturating_sub(2));
+            names.insert(0, base);
+            names.insert(1, ext);
         }
         Universe::new(names, depth)
     }
